@@ -720,6 +720,12 @@ func (c *Conn) write(b []byte) (int, error) {
 
 	if len(c.writeList) == 0 {
 		n, err := c.doWrite(b)
+		// An interrupted call has written nothing and says nothing about
+		// the socket: try again instead of queueing and waiting for a
+		// writability event that (edge-triggered) may never come.
+		for errors.Is(err, syscall.EINTR) {
+			n, err = c.doWrite(b)
+		}
 		if err != nil &&
 			!errors.Is(err, syscall.EINTR) &&
 			!errors.Is(err, syscall.EAGAIN) {
@@ -760,6 +766,10 @@ func (c *Conn) writev(in [][]byte) (int, error) {
 	}
 
 	nwrite, err := writev(c, in)
+	// see write(): an interrupted call is simply repeated.
+	for errors.Is(err, syscall.EINTR) {
+		nwrite, err = writev(c, in)
+	}
 	if nwrite < 0 {
 		nwrite = 0
 	}
